@@ -17,6 +17,7 @@ def run(ctx):
     nseq, nh, shards = ('300', '40', 4) if not ctx.thorough else ('2500', '320', 16)
     ctx.children(b, shards, run='TestC05Sequential', env={'VERIF_C05_SEQ': nseq}, timeout=1200)
     pt = '4' if not ctx.thorough else '20'  # porcupine budget per history; a timeout is inconclusive for that history only
+    ctx.children(b, 1, run='TestC05Overlap', env={'VERIF_C05_OVERLAP': '300' if not ctx.thorough else '20000'}, timeout=1200, what='TestC05Overlap')
     ctx.children(b, 1, run='TestC05Split', env={'VERIF_C05_SPLIT': '120' if not ctx.thorough else '3000'}, timeout=1200, what='TestC05Split')
     racelog = os.path.join(ctx.scratch, 'race')
     ctx.children(br, shards, run='TestC05Concurrent', timeout=2400, parallel=4,
